@@ -18,6 +18,9 @@ class Worker:
         self.env["ASAN_SYMBOLIZER_PATH"] = "/usr/bin/llvm-symbolizer"
         if env_extra:
             self.env.update(env_extra)
+            if env_extra.get("NOSYM"):
+                self.env["ASAN_OPTIONS"] = self.env["ASAN_OPTIONS"].replace("symbolize=1", "symbolize=0")
+                self.env["UBSAN_OPTIONS"] = "print_stacktrace=0:halt_on_error=1:symbolize=0"
         self.p = None
         self.errf = None
         self.restarts = 0
